@@ -26,7 +26,7 @@ from gens import progs
 from oracles import objmodel as M
 from vf import core, engine, pool
 
-from . import proglib
+from . import c08_builtin, proglib
 
 ID = "C08"
 GUARD_FINDING = {}
@@ -579,6 +579,7 @@ def main(chk):
     run_hist(chk, guards)
     sample_histories(chk, guards)
     t2 = time.time()
+    c08_builtin.run(chk)  # campaign "builtin receivers" (checks/c08_builtin.py)
     chk.extra["history_steps"] = chk.evaluations - chk.extra["call_cases"]
     chk.extra["wall_parts_s"] = {"call": round(t1 - t0, 1), "hist": round(t2 - t1, 1)}
     chk.exhaustive = False
@@ -586,6 +587,8 @@ def main(chk):
 
 def replay(rec):
     case = rec["case"]
+    if case.get("sub") == "builtin":
+        return c08_builtin.replay_case(case)
     kind = case.get("kind")
     if kind == "hist":
         want = case.get("want")
